@@ -66,6 +66,8 @@ def cases(rng, tier):
         out.append({"kind": "names", "seed": rng.getrandbits(32), "count": 150})
     for i in range(60 if tier == "quick" else 1200):
         out.append({"kind": "header", "seed": rng.getrandbits(32), "encoded": bool(i & 1)})
+    for hdr in ("raw", "lzma+crc"):
+        out.append({"kind": "listed-times", "header": hdr})
     return out
 
 
@@ -160,6 +162,31 @@ def run_case(case):
                             viol.append({"key": "bool/read", "what": "encoding %s of vector len %d (alldef=%s) read as %r, consumed %d" % (enc.hex(), n, alldef, list(got)[:16], f.tell())})
             cells.append("bool|len%d" % n)
         sample = {"kind": "bools", "lengths": [case["lo"], case["hi"] - 1]}
+    elif kind == "listed-times":
+        # timestamps over the whole unsigned range, through a whole archive and the listing interface
+        import py7zr
+
+        vals = [0, 1, 116444736000000000, (1 << 63) - 1, 1 << 63, (1 << 64) - 1, 2650467743999999999, 2650467744000000000, None]
+        mem = [{"name": "t%d" % i, "kind": "file", "data": b"x%d" % i, "attributes": 0x20, "mtime": v} for i, v in enumerate(vals)]
+        data = W.build(mem, {"folders": [{"n": len(mem), "chain": [{"m": "COPY"}], "crc": "sub"}], "header": case["header"]})
+        try:
+            with py7zr.SevenZipFile(io.BytesIO(data)) as z:
+                got = [None if f.lastwritetime is None else int(f.lastwritetime) for f in z.files]
+                if got != vals:
+                    viol.append({"key": "archive/read-mtime", "what": "modification times %r read as %r" % (vals, got)})
+                try:
+                    ls = z.list()
+                    if len(ls) != len(vals):
+                        viol.append({"key": "archive/list-count", "what": "list() returns %d entries for %d members" % (len(ls), len(vals))})
+                    elif ls[-1].creationtime is not None:
+                        viol.append({"key": "archive/list-invents-time", "what": "member without modification time listed with %r" % (ls[-1].creationtime,)})
+                except Exception as e:
+                    viol.append({"key": "archive/list-raises/%s" % type(e).__name__, "what": "list() on an archive holding FILETIMEs %r raised %s" % (vals, e)})
+        except Exception as e:
+            viol.append({"key": "archive/open-raises/%s" % type(e).__name__, "what": "archive with extreme timestamps: %s" % e})
+        obs["header_roundtrips"] += 1
+        cells.append("listed-times|" + case["header"])
+        sample = {"kind": "listed-times"}
     elif kind == "names":
         r = random.Random(case["seed"])
         from vf.gen import basic as G
@@ -209,6 +236,7 @@ def _header_case(case, viol, obs):
     nfiles = r.choice([1, 2, 3, 7, 8, 9, 16, 17, 33, 64, 65, 130])
     tdef = r.choice(["all", "none", "partial", "one"])
     adef = r.choice(["all", "partial", "one"])
+    cdef = r.choice(["none", "none", "partial", "one", "all"])  # creation / access times: rarer, but part of the format
     files = []
     for i in range(nfiles):
         kind = r.choice(["file", "file", "file", "emptyfile", "dir"])
@@ -222,6 +250,8 @@ def _header_case(case, viol, obs):
                 return gen() if i == nfiles // 2 else None
             return gen() if r.random() < 0.5 else None
         m["mtime"] = pick(tdef, lambda: r.choice(EXTREME + [r.getrandbits(64)]))
+        m["ctime"] = pick(cdef, lambda: r.choice(EXTREME + [r.getrandbits(64)]))
+        m["atime"] = pick(cdef if i % 2 else "none", lambda: r.choice(EXTREME + [r.getrandbits(64)]))
         m["attributes"] = pick(adef, lambda: r.choice([0, 0x10, 0x20, 0xFFFFFFFF, 0x80000000, r.getrandbits(32)]))
         files.append(m)
     nstream = sum(1 for m in files if m["kind"] == "file")
@@ -236,8 +266,10 @@ def _header_case(case, viol, obs):
                         "sub_crcs": [r.getrandbits(32) for _ in range(k)]})
         left -= k
     pack_sizes = [r.choice(EXTREME[:14]) for _ in folders]
-    desc = {"pack_pos": 0, "pack_sizes": pack_sizes, "pack_crcs": None, "folders": folders, "files": files}
-    lay = {"nonminimal": r.choice([0, 0, 1, 3]), "explicit_defvec": r.random() < 0.3, "dummy": r.choice([None, 0, 3, 200])}
+    pcm = r.choice(["none", "none", "all", "partial"])
+    pack_crcs = None if pcm == "none" or not folders else [(r.getrandbits(32) if (pcm == "all" or r.random() < 0.5) else None) for _ in folders]
+    desc = {"pack_pos": 0, "pack_sizes": pack_sizes, "pack_crcs": pack_crcs, "folders": folders, "files": files}
+    lay = {"nonminimal": r.choice([0, 0, 1, 3]), "explicit_defvec": r.random() < 0.3, "dummy": r.choice([None, 0, 3, 200]), "startpos": r.random() < 0.15}
     hdr = W.build_raw_header(desc, lay)
     cells = ["header|n%s|t:%s|a:%s|%s" % ("<9" if nfiles < 9 else ("<65" if nfiles < 65 else ">=65"), tdef, adef, "enc" if case["encoded"] else "raw")]
     sample = {"kind": "header", "files": nfiles, "folders": len(folders), "mtime": tdef, "attr": adef, "encoded": case["encoded"]}
@@ -318,6 +350,8 @@ def _header_case(case, viol, obs):
             viol.append({"key": "header/rewrite-mtime", "what": "mtime %r re-serialised as %r (vector %s)" % (m["mtime"], g.mtime, tdef)})
         if g.attributes != m["attributes"]:
             viol.append({"key": "header/rewrite-attributes", "what": "attributes %r re-serialised as %r (vector %s)" % (m["attributes"], g.attributes, adef)})
+        if g.ctime != m["ctime"] or g.atime != m["atime"]:
+            viol.append({"key": "header/rewrite-ctime-atime", "what": "creation/access time %r/%r re-serialised as %r/%r (vector %s)" % (m["ctime"], m["atime"], g.ctime, g.atime, cdef)})
         if g.has_stream != (m["kind"] == "file"):
             viol.append({"key": "header/rewrite-emptystream", "what": "%s entry re-serialised with has_stream=%s" % (m["kind"], g.has_stream)})
         elif not g.has_stream and g.is_dir != (m["kind"] == "dir"):
@@ -329,6 +363,8 @@ def _header_case(case, viol, obs):
             viol.append({"key": "header/rewrite-digests", "what": "digests changed by the round trip"})
         if st1.pack_sizes != pack_sizes:
             viol.append({"key": "header/rewrite-packsizes", "what": "pack sizes changed by the round trip"})
+        if pack_crcs is not None and any(c is not None for c in pack_crcs) and list(getattr(st1, "pack_crcs", None) or []) != pack_crcs:
+            viol.append({"key": "header/rewrite-pack-crcs", "what": "packed-stream CRC vector %r re-serialised as %r" % (pack_crcs[:6], list(getattr(st1, "pack_crcs", None) or [])[:6])})
     obs["header_roundtrips"] += 1
     return sample, cells
 
